@@ -1068,6 +1068,13 @@ fn damage(rng: &mut Rng, r: &mut Resp, what: &str, world: &World, target_type: u
             r.authority.retain(|x| !matches!(x.1, T_RRSIG | T_NSEC | T_NSEC3));
             before != r.answer.len() + r.authority.len()
         }
+        "ttl-zero" => {
+            // every record arrives with a TTL of zero (do not cache): still a valid answer
+            for x in r.answer.iter_mut().chain(r.authority.iter_mut()) {
+                x.2 = 0;
+            }
+            true
+        }
         "servfail" => {
             r.rcode = 2;
             r.answer.clear();
@@ -1420,7 +1427,7 @@ fn one_world(c: &mut Ctx, rt: &tokio::runtime::Runtime, fam: &str, idx: u64) {
             v
         };
         // a query for the very record the upstream lies about is judged by the message faults above
-        let up_faults: &[&str] = &["hostile:dnskey-with-empty-key", "hostile:dnskey-with-short-rsa-key", "hostile:dnskey-many-keys", "hostile:ds-with-short-rdata", "hostile:ds-unknown-digest", "hostile:ds-many", "drop-rrsigs", "corrupt-signature", "alter-rdata", "wrong-signer", "expired", "drop-all-proofs", "pretend-unsigned", "servfail", "empty-noerror", "timeout", "garbage"];
+        let up_faults: &[&str] = &["hostile:dnskey-with-empty-key", "hostile:dnskey-with-short-rsa-key", "hostile:dnskey-many-keys", "hostile:ds-with-short-rdata", "hostile:ds-unknown-digest", "hostile:ds-many", "drop-rrsigs", "corrupt-signature", "alter-rdata", "wrong-signer", "expired", "drop-all-proofs", "pretend-unsigned", "servfail", "empty-noerror", "timeout", "garbage", "ttl-zero", "ttl-zero"];
         for _ in 0..2 {
             let (name, rtype) = rng.pick(&chain).clone();
             let what = *rng.pick(up_faults);
@@ -1430,7 +1437,7 @@ fn one_world(c: &mut Ctx, rt: &tokio::runtime::Runtime, fam: &str, idx: u64) {
             let fault = UpFault::On { name: name.clone(), rtype, what };
             let (got, nreq) = validate(rt, &world, fault, idx * 1000 + qi as u64, &wire);
             // "drop-all-proofs" only matters where the DS answer is a denial (not on this chain: all DS exist)
-            let harmless = matches!(what, "drop-all-proofs" | "garbage") || what.starts_with("hostile:");
+            let harmless = matches!(what, "drop-all-proofs" | "garbage" | "ttl-zero") || what.starts_with("hostile:");
             match got {
                 Out::Panic(pi) => {
                     c.violation(&format!("panic:{}", pi.site()), &format!("panic when the upstream answers {} TYPE{} with [{}]: {} at {}:{}", w::name_text(&name), rtype, what, pi.msg, pi.file, pi.line), c.replay_of(fam, idx, ex(q, json!({"upstream_fault": what}))));
